@@ -145,7 +145,16 @@ def make_sequence(k, three=False, small=False, bare=False):
     if small:
         # the same process at a fraction of the usual size (wire of 3 mm .. 0.3 mm instead of a 30 mm bar)
         k = k * small
-    if not three:
+    if three == 'flat':
+        # a three-roll block whose second stand has flat rolls: its contact area probes the incoming (three-fold) profile exactly on its lower edge
+        from pyroll.core import FlatGroove
+        seq = PassSequence([
+            ThreeRollPass(label="Pass1", roll=Roll(groove=RoundGroove(r1=1e-3 * k, r2=9.6e-3 * k, depth=4.3e-3 * k, pad_angle=30), nominal_radius=150e-3 * k,
+                                                   rotational_frequency=1), inscribed_circle_diameter=18e-3 * k),
+            ThreeRollPass(label="Pass2", roll=Roll(groove=FlatGroove(usable_width=20e-3 * k, pad_angle=30), nominal_radius=150e-3 * k, rotational_frequency=1),
+                          inscribed_circle_diameter=17e-3 * k)])
+        ip = Profile.round(diameter=20e-3 * k, temperature=1473.15, material=["C45", "steel"], length=1 * k, flow_stress=100e6)
+    elif not three:
         seq = PassSequence([
             RollPass(label="Oval I", roll=Roll(groove=CircularOvalGroove(depth=8e-3 * k, r1=6e-3 * k, r2=40e-3 * k), nominal_radius=160e-3 * k,
                                                rotational_frequency=1, neutral_point=-20e-3 * k), gap=2e-3 * k),
@@ -292,6 +301,7 @@ def run(chk):
     n1 = sequence_twins(chk, ks_seq, three=False)
     n2 = sequence_twins(chk, ks_seq[:1], three=True)
     n2 += sequence_twins(chk, ks_seq[:1], three=False, bare=True)
+    n2 += sequence_twins(chk, [1000.0, 100.0, 39.37007874015748], three='flat')
     for base in (0.1, 0.03, 0.01, 10.0, 40.0):      # wire ... heavy sections: small products and large numbers in small units
         n1 += sequence_twins(chk, ks_seq[:1] + [100.0], three=False, small=base)
     spline_twins(chk, ks_geo)
